@@ -38,18 +38,23 @@ def asan_runtime():
     return _asan_rt
 
 _scratch = None
+import threading as _threading
+_scratch_lock = _threading.Lock()
 
 
 def scratch():
     """Per-process scratch dir outside /repo and /verif; removed at exit."""
     global _scratch
     if _scratch is None:
-        base = os.environ.get("VERIF_SCRATCH", "/var/tmp/verif-scratch")
-        _scratch = os.path.join(base, "p%d" % os.getpid())
-        shutil.rmtree(_scratch, ignore_errors=True)
-        os.makedirs(_scratch)
-        if not os.environ.get("VERIF_KEEP"):
-            atexit.register(shutil.rmtree, _scratch, True)
+        with _scratch_lock:          # checks call this from worker threads
+            if _scratch is None:
+                base = os.environ.get("VERIF_SCRATCH", "/var/tmp/verif-scratch")
+                d = os.path.join(base, "p%d" % os.getpid())
+                shutil.rmtree(d, ignore_errors=True)
+                os.makedirs(d, exist_ok=True)
+                if not os.environ.get("VERIF_KEEP"):
+                    atexit.register(shutil.rmtree, d, True)
+                _scratch = d
     return _scratch
 
 
